@@ -253,6 +253,44 @@ def rule_DV(ctx, fm):
     ctx.check('C10.DV.segments', '_dipole_vector sums consecutive segments',
               len(seg) == 1, 'a wire is not the sum of its consecutive '
               'two-point segments', ctx.where(fm, fn))
+    # the electrodes that are segmented are the caller's, only rounded: every
+    # definition of the point list is the parameter, or its element-wise
+    # rounding (dropping / reordering rows changes the wire)
+    if seg:
+        Pn = seg[0][1]['_p_']
+        ok = Pn in au.params(fn)
+        chain, bad = {Pn}, []
+        changed = True
+        while changed:
+            changed = False
+            for n in ast.walk(fn):
+                if isinstance(n, ast.Assign) and len(n.targets) == 1 and \
+                        isinstance(n.targets[0], ast.Name) and \
+                        n.targets[0].id in chain:
+                    v = n.value
+                    if isinstance(v, ast.Name):
+                        if v.id not in chain:
+                            chain.add(v.id)
+                            changed = True
+                    elif not any(has(f'{n.targets[0].id} = np.round('
+                                     f'np.asarray({c}, dtype=float), __)', n)
+                                 for c in chain):
+                        if n not in bad:
+                            bad.append(n)
+                elif isinstance(n, (ast.AugAssign, ast.Assign)) and any(
+                        isinstance(t, ast.Subscript) and isinstance(
+                            t.value, ast.Name) and t.value.id in chain
+                        for t in (n.targets if isinstance(n, ast.Assign)
+                                  else [n.target])):
+                    if n not in bad:
+                        bad.append(n)
+        ctx.check('C10.DV.segments', '_dipole_vector: electrodes only '
+                  'rounded before segmentation', ok and not bad,
+                  f'`{au.stext(bad[0]) if bad else Pn}` alters the electrode '
+                  'list (rows dropped, reordered or changed): the wire is no '
+                  'longer the sum of the segments the caller gave',
+                  ctx.where(fm, bad[0] if bad else fn),
+                  sample={'names': sorted(chain)})
     ctx.floor('C10.DV.scaling', 4)
 
 
@@ -411,6 +449,8 @@ def run(ctx):
     fm = ctx.repo.mod(FIELDS)
     rule_SF(ctx, fm)
     rule_DV(ctx, fm)
+    from . import c09
+    c09.rule_PV(ctx, fm, P='C10.PV')
 
     class R:
         def __init__(self, c):
